@@ -11,10 +11,15 @@ PROP = "C07"
 RULE = ("frames x cuttings: structured streams of encoded frames (payload lengths 0,1,7,8,9,2047..2049,65534,65535), "
         "bad-magic and truncated streams, random and exhaustive cuttings into reads, random send/flush scripts with "
         "partial writes and EAGAIN, an end-of-stream read or read error after every sampled stream (implementation only), handshake deliveries cut at every position with NUL-free noise; a case is "
-        "non-trivial when it contains at least one complete frame or one cut inside a header/sync string; distinct by content hash")
+        "non-trivial when it contains at least one complete frame or one cut inside a header/sync string; distinct by content hash; "
+        "the real server.main's start (synchronisation string through the real TextIOWrapper/BufferedWriter layering of sys.stdout, "
+        "first messages and PONGs through the real Mux/runonce) on a raw descriptor 1 that takes 1..13 bytes per write / per first "
+        "write / random scripts incl. would-block: the stream on descriptor 1 is the complete string followed by whole messages "
+        "(judged by byte comparison and by the model's hs_spec + decode)")
 TRUSTED_BASE = [
     "modelled, not verified: CPython struct.pack/unpack('!ccHHH'), bytes slicing, list.append; raw socket-file read(n) returns 1..n bytes (b'' at EOF), non-blocking write returns None/0..len",
     "the fake rfile/wfile objects of harness/props/c07.py stand for the ssh pipe",
+    "modelled, not verified: io.BufferedWriter.flush repeats the raw write with the unwritten tail until its buffer is empty, and a raw write on a blocking descriptor takes at least one byte (WireStart.flush_all); the run itself uses the REAL io.TextIOWrapper/BufferedWriter over a scripted raw file for descriptor 1",
 ]
 ASSUMPTIONS = [
     "Mux.fill never sees read() -> None after select reported readable (would raise TypeError in the debug2 argument)",
@@ -342,11 +347,261 @@ def shim_relay(ctx, rng, quick):
                               {"shim": {"bytes_in_pipe": len(up), "bytes_delivered": len(got_up)}})
 
 
+SYNC = b"\0\0SSHUTTLE0001"
+
+
+class StopStart(BaseException):
+    pass
+
+
+def server_start_run(ssnet, sce):
+    """The real server.main from its first line until it has nothing left to write, with descriptor 1 a raw file that
+    takes only part of what it is offered (scripted), and descriptor 0 delivering `pings` (round-trip requests) in the
+    given pieces.  sys.stdout is the real layering over descriptor 1 (TextIOWrapper over BufferedWriter over the raw file);
+    io.FileIO(1) / io.open(1, ...) give the same raw file (through the real buffered layers where the code asks for
+    them).  The real ssnet.runonce runs the loop; select() is answered by the harness: descriptor 1 is always writable,
+    descriptor 0 readable while pieces are left.  Returns (bytes on descriptor 1, messages the server queued, how it ended)."""
+    import io
+    import random
+    import socket
+    import sshuttle.server as server
+    import sshuttle.helpers as helpers
+    import stream_common as sc
+    rng = random.Random(sce.get("seed", 0))
+    script = list(sce["script"])
+
+    class RawW(io.RawIOBase):
+        def __init__(self):
+            io.RawIOBase.__init__(self)
+            self.wire, self.nonblocking, self.calls = b"", False, []
+
+        def writable(self):
+            return True
+
+        def fileno(self):
+            return 1
+
+        def write(self, data):
+            data = bytes(data)
+            k = script.pop(0) if script else None
+            while k == "a" and not self.nonblocking:
+                k = script.pop(0) if script else None        # a blocking descriptor never answers "try again"
+            if k == "a":
+                self.calls.append((len(data), None))
+                return None
+            n = len(data) if k is None else min(int(k), len(data))
+            self.wire += data[:n]
+            self.calls.append((len(data), n))
+            return n
+
+    class RawR(io.RawIOBase):
+        def __init__(self, chunks):
+            io.RawIOBase.__init__(self)
+            self.chunks, self.nonblocking = [bytes(c) for c in chunks if c], False
+
+        def readable(self):
+            return True
+
+        def fileno(self):
+            return 0
+
+        def readinto(self, b):
+            if not self.chunks:
+                return None                                   # (only ever asked after select said readable)
+            c = self.chunks[0]
+            n = min(len(b), len(c))
+            b[:n] = c[:n]
+            if n == len(c):
+                self.chunks.pop(0)
+            else:
+                self.chunks[0] = c[n:]
+            return n
+
+    start = {"wire": None, "writes": 0}
+    raww, rawr = RawW(), RawR(sce.get("in_chunks_hex") and [bytes.fromhex(h) for h in sce["in_chunks_hex"]] or [])
+    sent = []
+
+    class SysShim(object):
+        platform = "linux"
+        stderr = sys.stderr
+        exc_info = staticmethod(sys.exc_info)
+        exit = staticmethod(sys.exit)
+        stdout = io.TextIOWrapper(io.BufferedWriter(raww), encoding="latin-1", newline="")
+
+    class SelShim(object):
+        error = OSError
+
+        @staticmethod
+        def select(r, w, x, timeout=None):
+            rr = [f for f in r if rawr.chunks]
+            ww = list(w)
+            if timeout is None:
+                if not rr and not ww:
+                    raise StopStart()
+                if rr and ww and rng.random() < 0.5:          # either order of "input arrives" and "room on the pipe"
+                    if rng.random() < 0.5:
+                        rr = []
+                    else:
+                        ww = []
+            return rr, ww, []
+
+    def nb(fd):
+        if fd == 1:
+            raww.nonblocking = True
+        elif fd == 0:
+            rawr.nonblocking = True
+
+    o_send = ssnet.Mux.send
+
+    def rec_send(self_, channel, cmd, data):
+        if not sent:
+            # the multiplexer is being created: everything on descriptor 1 so far is the start-of-stream string
+            start["wire"], start["writes"] = raww.wire, len(raww.calls)
+        sent.append((channel, cmd, bytes(data)))
+        return o_send(self_, channel, cmd, data)
+    routes = [(int(socket.AF_INET), "10.%d.%d.0" % (i // 250, i % 250), 24) for i in range(sce.get("routes", 0))]
+    saved = (server.io, server.sys, server.list_routes, ssnet.select, ssnet.set_non_blocking_io, ssnet.Mux.send,
+             helpers.log, server.log, helpers.logprefix, ssnet.LATENCY_BUFFER_SIZE)
+    how = "returned"
+    try:
+        server.io = sc.io_shim(lambda fd: rawr if fd == 0 else raww)
+        server.sys = SysShim
+        server.list_routes = lambda: iter(routes)
+        ssnet.select = SelShim
+        ssnet.set_non_blocking_io = nb
+        ssnet.Mux.send = rec_send
+        helpers.log = server.log = lambda s: None
+        try:
+            server.main(sce.get("latency", True), sce.get("lbs", 32768), False, None, bool(routes))
+        except StopStart:
+            how = "nothing left to do"
+        except SystemExit as e:
+            how = "exit %s" % (e.code,)
+        except Exception as e:        # noqa
+            how = "raised %s: %s" % (type(e).__name__, str(e)[:200])
+    finally:
+        (server.io, server.sys, server.list_routes, ssnet.select, ssnet.set_non_blocking_io, ssnet.Mux.send,
+         helpers.log, server.log, helpers.logprefix, ssnet.LATENCY_BUFFER_SIZE) = saved
+    return raww.wire, sent, how, raww.calls, start
+
+
+def server_start_scenarios(rng, quick):
+    out = []
+
+    def ping_input(n):
+        pay = [bytes(rng.randrange(256) for _ in range(rng.choice([0, 6, 7, 40]))) for _ in range(n)]
+        stream = b"".join(encode_py(0, 0x4201, d) for d in pay)
+        return pay, [c.hex() for c in random_cut(rng, stream, 4)]
+    for nroutes, npings in ((0, 0), (3, 2)):
+        base = [[]] + [[k] * 400 for k in range(1, 14)] + [[k] for k in range(1, 14)]
+        for sc_ in base:
+            pay, chunks = ping_input(npings)
+            out.append({"script": sc_, "routes": nroutes, "pings_hex": [d.hex() for d in pay], "in_chunks_hex": chunks,
+                        "seed": rng.randrange(1 << 30)})
+    for _ in range(40 if quick else 1500):
+        sc_ = [rng.choice([1, 2, 3, 5, 7, 8, 9, 13, 14, 15, 21, 100, 5000, "a", None]) for _ in range(rng.randint(1, 40))]
+        if rng.random() < 0.3:
+            sc_ += [rng.choice([1, 7, 8, 9])] * 600
+        pay, chunks = ping_input(rng.choice([0, 1, 3, 8]))
+        out.append({"script": sc_, "routes": rng.choice([0, 0, 1, 3, 120]), "pings_hex": [d.hex() for d in pay],
+                    "in_chunks_hex": chunks, "seed": rng.randrange(1 << 30), "lbs": rng.choice([32768, 32768, 1, 100, 5000])})
+    return out
+
+
+def server_start_expected(sce):
+    import socket
+    routes = "".join("%d,%s,%d\n" % (int(socket.AF_INET), "10.%d.%d.0" % (i // 250, i % 250), 24) for i in range(sce.get("routes", 0)))
+    return ([(0, 0x4201, b"chicken"), (0, 0x4207, routes.encode())]
+            + [(0, 0x4202, bytes.fromhex(h)) for h in sce.get("pings_hex", [])])
+
+
+def server_start_judge(sce, wire, sent, how):
+    """None if the bytes on descriptor 1 are the complete synchronisation string followed by exactly the messages the
+    server had to send, whole and in order; otherwise (what, detail)"""
+    want = server_start_expected(sce)
+    det = {"write_script": [("again" if k == "a" else k) for k in sce["script"][:60]], "script_length": len(sce["script"]),
+           "routes": sce.get("routes", 0), "requests_delivered": len(sce.get("pings_hex", [])), "server": how,
+           "first_bytes_on_descriptor_1": wire[:48].hex(), "bytes_on_descriptor_1": len(wire)}
+    if how != "nothing left to do":
+        return ("server.main did not carry on until it had nothing left to write (start of the tunnel, short writes on "
+                "descriptor 1)", det)
+    if wire[:len(SYNC)] != SYNC:
+        return ("what the server put on descriptor 1 does not start with the complete synchronisation string: it depends on "
+                "how the descriptor split the writes", det)
+    # (with a small --latency-buffer-size the server asks for a round trip of its own, PING 'rttest', in between)
+    asked = [f for f in sent if f != (0, 0x4201, b"rttest")]
+    if asked != want:
+        det["messages_queued_by_the_server"] = ["%d,%04x,%d bytes" % (a, b, len(d)) for a, b, d in sent][:20]
+        return ("the server did not queue exactly its first messages (PING, ROUTES, one PONG per request delivered, in order)", det)
+    full = SYNC + b"".join(encode_py(*f) for f in sent)
+    if wire != full:
+        i = next((i for i in range(min(len(wire), len(full))) if wire[i] != full[i]), min(len(wire), len(full)))
+        det["first_difference_at"] = i
+        det["messages_queued_by_the_server"] = len(sent)
+        return ("the bytes after the synchronisation string on descriptor 1 are not the server's first messages, whole and in "
+                "order (start of the tunnel, short writes on descriptor 1)", det)
+    return None
+
+
+def server_start_check(ctx, ssnet, rng, quick):
+    """C07 on the sending side of the start-up: "the recognition of the server's start-of-stream synchronisation string
+    depend[s] only on the bytes sent and never on how they are split across reads and writes" — the server "writes it
+    before anything else".  For every short-write script the byte stream on descriptor 1 must be the synchronisation
+    string followed by well-formed messages.  Model: coq/Model/WireStart.v (flush_all = BufferedWriter.flush under a
+    raw-write script; server_start = the string, then the multiplexer's wire); theorems c07_server_start (hs_spec accepts
+    server_start ... and hands on exactly the multiplexer's bytes, for EVERY script), c07_server_start_end_to_end (composed
+    with every sequence of sends / partial flushes and every cutting into reads on the client) and
+    c07_sync_single_write_refuted (one raw write with the result ignored loses the tail).  The run compares the bytes on
+    descriptor 1 at the moment the multiplexer is created with the model's flush_all (SSTART), and judges the whole
+    stream by byte comparison and by the model's hs_spec + decode."""
+    scen = server_start_scenarios(rng, quick)
+    results = []
+    for sce in scen:
+        wire, sent, how, calls, start = server_start_run(ssnet, sce)
+        bad = server_start_judge(sce, wire, sent, how)
+        results.append((sce, wire, bad, sent, start))
+        short = sum(1 for a, b in calls if b is not None and b < a)
+        ctx.case(("server-start", tuple(str(k) for k in sce["script"][:40]), sce["routes"], len(sce["pings_hex"]), sce["seed"]),
+                 nontrivial=True, sample={"kind": "server start", "script": [str(k) for k in sce["script"][:12]],
+                                          "short_writes": short, "bytes": len(wire)} if short and len(sce["script"]) < 30 else None)
+        ctx.count("server_start_runs")
+        ctx.count("server_start_short_writes", short)
+        if bad:
+            ctx.violation(bad[0], {"server_start": sce, "detail": bad[1]})
+    # the same verdict from the extracted model: hs_spec accepts the stream and leaves the messages; decode gives them
+    if ctx.driver:
+        lines = []
+        for sce, wire, bad, sent, start in results:
+            lines.append("HSSPEC %s" % hx(wire))
+            lines.append("DEC %s" % hx(wire[len(SYNC):]))
+            # WireStart.flush_all: the string through BufferedWriter.flush under the same raw-write script (the
+            # descriptor is still blocking: no "try again"; after the script every write takes all it is offered)
+            ks = [10 ** 6 if k is None else int(k) for k in sce["script"] if k != "a"][:64]
+            lines.append("SSTART " + " ".join(str(k) for k in ks + [10 ** 6] * 16))
+        out = ctx.run_driver(lines)
+        for i, (sce, wire, bad, sent, start) in enumerate(results):
+            m_start = out[3 * i + 2].split(" ")[0]
+            i_start = hx(start["wire"]) if start["wire"] is not None else "(no multiplexer was created)"
+            if m_start != i_start:
+                ctx.disagree("server start: bytes on descriptor 1 when the multiplexer is created (model: flush_all script server_sync)",
+                             {"server_start": sce}, i_start[:80], m_start[:80], holds=(bad is None))
+            m_ok = (out[3 * i] == "1 %s" % hx(wire[len(SYNC):])
+                    and out[3 * i + 1] == "OK %s | -" % ";".join("%d,%d,%s" % (a, b, hx(d)) for a, b, d in sent))
+            if m_ok != (bad is None or bad[0].startswith("the server did not queue")):
+                ctx.disagree("server start: the model's recogniser/decoder and the harness's byte comparison judge the stream "
+                             "on descriptor 1 differently", {"server_start": sce}, "ok" if bad is None else bad[0],
+                             (out[3 * i][:80], out[3 * i + 1][:200]))
+
+
 def correspondence(ctx):
     ssnet = load()
     rng = ctx.rng
     quick = ctx.quick()
     shim_relay(ctx, rng, quick)
+    import time
+    t0 = time.time()
+    server_start_check(ctx, ssnet, rng, quick)
+    ctx.extra["server_start_check_wall_s"] = round(time.time() - t0, 2)
     CMDS = [0x4200 + i for i in range(15)] + [0, 65535]
 
     def rand_payload(n):
@@ -580,6 +835,12 @@ def replay(ctx, rp):
     """re-run a stored failing input against the real code; returns True if it still fails"""
     ssnet = load()
     r = rp.get("replay", {})
+    if "server_start" in r:
+        sce = r["server_start"]
+        wire, sent, how, calls, start = server_start_run(ssnet, sce)
+        bad = server_start_judge(sce, wire, sent, how)
+        print("server start:", bad and bad[0], "| first bytes on descriptor 1:", wire[:40])
+        return bad is not None
     if "deliveries" in r:
         chunks = [bytes.fromhex(c) for c in r["deliveries"] if c != "-"]
         got = impl_hs(chunks)
